@@ -107,7 +107,7 @@ TOKENIZER = [
       Closure(1, "|| -> (r: usize) ensures r == self.input.spec_bytes().len() as usize"),
     ],
   ),
-  F('is_digit_char', props=['C01', 'C05', 'C09', 'C10'],
+  F('is_digit_char', props=['C01!', 'C05', 'C09', 'C10'],
     spec=r'''    ensures r == (('0' <= ch && ch <= '9') || ch == '.' || ch == '-' || ch == 'e' || ch == 'E' || ch == '+'),''',
     ops=[],
   ),
@@ -231,7 +231,7 @@ TOKENIZER = [
         r is Ok,  // @C05,C10 scanner.total''',
     ops=[],
   ),
-  F('Tokenizer::number_token', props=['C01', 'C05', 'C09', 'C10'],
+  F('Tokenizer::number_token', props=['C01!', 'C05', 'C09', 'C10'],
     spec=r'''    requires is_digit_b(old(self).bytes()[start as int]), start + 1 == old(self).off(), old(self).cur_char.len_utf8() == 1, old(self).bytes()[start as int] == old(self).cur_char as u8, old(self).in_token(start as int),
     ensures final(self).scan_frame(old(self), start as int),
         r matches Ok(t) ==> t matches Token::Number(d, sp) && sp == Span(start, final(self).off() as usize)
@@ -254,7 +254,7 @@ TOKENIZER = [
     decreases self.len() - self.off(), 2int,''',
     ops=[Ins('let:peek', 'after', "        proof { lemma_open_paren(self.bytes(), self.off(), peek); }")],
   ),
-  F('Tokenizer::string_token', props=['C01', 'C05', 'C10', 'C12'],   # C12: a string payload never contains its own delimiter, so the printer always has a free quote
+  F('Tokenizer::string_token', props=['C01!', 'C05', 'C10', 'C12'],   # C12: a string payload never contains its own delimiter, so the printer always has a free quote
     spec=r'''    requires old(self).in_token(start as int), start + 1 == old(self).off(),
         old(self).bytes()[start as int] == old(self).cur_char as u8,
         old(self).cur_char == '"' || old(self).cur_char == '\'',
@@ -343,7 +343,7 @@ PARSER = [
         r.0 >= 0 ==> r.1 == rbp(op_text(self.cur())),''',
     ops=[],
   ),
-  F('Parser::parse_token', props=['C01', 'C02', 'C05', 'C09'],
+  F('Parser::parse_token', props=['C01!', 'C02', 'C05', 'C09'],
     spec=r'''    requires old(self).wf(),
     ensures r is Ok ==> final(self).wf() && final(self).bytes() == old(self).bytes() && final(self).m() < old(self).m(),
         r matches Ok(v) ==> (if old(self).cur() is Operator { final(self).d_prim(old(self), v) } else { final(self).d_atom(old(self), v) }),
@@ -600,11 +600,11 @@ UNIT = Unit('tp', [
     Src('token.rs', fns=TOKEN, props=['C05', 'C10'],
         regex_rules=[('rule13_string_eq_str', r'(\b\w+\.string\(\)) == (\w+)', r'vx_string_eq_str(&\1, \2)')]),
     Ghost(_t('ghost_tokenizer.rs'), props=['C10'], name='ghost_tokenizer'),
-    Src('tokenizer.rs', fns=TOKENIZER, props=['C01', 'C05', 'C10'],
+    Src('tokenizer.rs', fns=TOKENIZER, props=['C01!', 'C05', 'C10'],
         item_attr={'Tokenizer': '#[verifier::external_derive]'},
         regex_rules=[('rule13_string_eq_str', r'(\b\w+\.string\(\)) == (\w+)', r'vx_string_eq_str(&\1, \2)')]),
     Ghost(_t('ghost_parser.rs'), props=['C02', 'C05'], name='ghost_parser'),
-    Src('parser.rs', fns=PARSER, props=['C01', 'C02', 'C05'],
+    Src('parser.rs', fns=PARSER, props=['C01!', 'C02', 'C05'],
         keep_fns=lambda k: k.startswith('Parser::'),
         item_attr={'Literal': '#[verifier::external_derive]', 'ExprAST': '#[verifier::external_derive]'}),
     Ghost('\n} } // verus!\nfn main(){}\n', name='tail'),
